@@ -121,3 +121,10 @@ package verify
 //@ func verifyQeReport(qeReport, qeReportOptions) (err)
 //@   requires qeReport != nil && qeReportOptions != nil && qeReportOptions.qeIdentity != nil
 //@   ensures[iff] err == nil <==> qeIdentityOK(qeReport, qeReportOptions.qeIdentity)
+
+// ---------------------------------------------------------------------------
+// top-level entry point (contract extended in the sections below)
+
+//@ func TdxQuote(quote, options) (err)
+//@   records verify_tdxquote
+//@   assigns options.chain, options.collateral, options.pckCertExtensions, options.Now
